@@ -141,7 +141,13 @@ func runP7Sign(sc M) {
 		var ss []M
 		for i := range pb.Signers {
 			s := &pb.Signers[i]
-			m := M{"sid": "X", "sigKey": "kx", "sigOver": "other_attrs", "attrs": "none", "ctattr": "absent", "md": "absent", "order": "swapped"}
+			m := M{"sid": "X", "sigKey": "kx", "sigOver": "other_attrs", "attrs": "none", "ctattr": "absent", "md": "absent", "order": "swapped", "alg": "sha256", "unauth": "none"}
+			if s.HasUnauth {
+				m["unauth"] = "m2"
+			}
+			if !s.DigestAlg.Equal(oidSHA256) {
+				m["alg"] = "sha1"
+			}
 			if bytes.Equal(s.IssuerRaw, cert.RawIssuer) && s.Serial.Cmp(cert.SerialNumber) == 0 {
 				m["sid"] = "A"
 			}
